@@ -715,7 +715,6 @@ Lemma iq_router_spec r sn attrs toks uerr script h :
 Proof.
   intro Hh. unfold iq_router, iq_spec. rewrite Hh.
   rewrite trim_first_spec by lia.
-  assert (Hlen : True) by exact I.
   destruct (drop_ws toks) as [|x rest] eqn:E.
   - unfold iq_reader at 1. unfold inner_token. cbn [u_token]. destruct uerr; [reflexivity|].
     unfold iq_empty_spec. destruct (bytes_eqb (h_type h) iqtype_result); [|reflexivity].
@@ -1343,8 +1342,7 @@ Proof.
   exists empty_reg, (str "jabber:client"), (str "jabber:client", str "iq"),
          [mkattr [] (str "id") (str "x1") None], [TStart (str "x", str "a"); TEnd; TEnd], false, [],
          (mkhdr [] (str "x1") None None []).
-  intro H. assert (P : forall A B : Prop, (A -> B) -> A -> B) by auto.
-  destruct H as [_ H]; try reflexivity. vm_compute in H. discriminate.
+  intro H. destruct H as [_ H]; try reflexivity. vm_compute in H. discriminate.
 Qed.
 
 (* messages and presences *)
